@@ -54,6 +54,8 @@ def expr(e):
         return '(EAttr %s %s)' % (expr(e.value), q(e.attr))
     if isinstance(e, ast.BinOp) and type(e.op) in BIN:
         return '(EBin %s %s %s)' % (BIN[type(e.op)], expr(e.left), expr(e.right))
+    if isinstance(e, ast.BinOp) and isinstance(e.op, ast.BitXor):
+        return '(EXor %s %s)' % (expr(e.left), expr(e.right))
     if isinstance(e, ast.Compare):
         if len(e.ops) == 1 and isinstance(e.ops[0], (ast.In, ast.NotIn)):
             neg = 'true' if isinstance(e.ops[0], ast.NotIn) else 'false'
@@ -333,6 +335,15 @@ TARGETS = {
         ('fun', 'block_level_page_break', 'break_fold', {'slice_from': 'result', 'params': ['values']}),
         ('fun', 'avoid_page_break', 'avoid_page_break', {}),
         ('fun', 'force_page_break', 'force_page_break', {}),
+    ]),
+    'GenPercent': ('weasyprint/layout/percent.py', [
+        ('fun', 'percentage', 'percentage', {}),
+    ]),
+    'GenReplaced': ('weasyprint/layout/replaced.py', [
+        ('fun', '_constraint_image_sizing', 'constraint_image_sizing', {}),
+        ('fun', 'contain_constraint_image_sizing', 'contain_constraint_image_sizing', {}),
+        ('fun', 'cover_constraint_image_sizing', 'cover_constraint_image_sizing', {}),
+        ('fun', 'default_image_sizing', 'default_image_sizing', {}),
     ]),
     'GenCss': ('weasyprint/css/__init__.py', [
         ('fun', 'declaration_precedence', 'declaration_precedence', {}),
